@@ -1,1 +1,232 @@
-fn main(){}
+//! C07 — interval predicates are exactly the set relations of the denoted closed sets.
+//!
+//! Exhaustive enumeration of every interval (all three kinds) over a chain that
+//! realises every order type of ≤ 4 bounds + 1 probe, all ordered pairs, all probes,
+//! for several element types; oracle = explicit bit-set denotations (DESIGN §4/C07, §5).
+
+use mc::{json, Cmd, Report, Sink, Tier, Value};
+use std::fmt::Debug;
+use std::ops::{Bound, RangeBounds};
+use vcheck::ivx::*;
+
+const P: &str = "C07";
+
+fn judge_pair<T: PartialOrd + Clone + Debug>(c: &Chain<T>, a: Iv, b: Iv, s: &mut Sink) {
+    let (ia, ib) = (c.build(a), c.build(b));
+    let (sa, sb) = (c.bits(a), c.bits(b));
+    let case = |f: &str| json!({"check":"pair","type":c.name,"n":c.top()+1,"a":a,"b":b,"fn":f});
+    s.evals += 1;
+    let exp_inter = sa & sb != 0;
+    let exp_incl = sa & sb == sb;
+    let exp_sub = sa & sb == sa;
+    let got = ia.intersects(&ib);
+    let got_rev = ib.intersects(&ia);
+    let got_incl = ia.includes(&ib);
+    let got_sub = ia.is_included_in(&ib);
+    s.calls += 4;
+    s.outcome(&(a.kind(), b.kind(), got, got_incl, got_sub, exp_inter, exp_incl, exp_sub));
+    if got != exp_inter {
+        s.violation(
+            format!("intersects/{}x{}/got={}", a.kind(), b.kind(), got),
+            format!("{:?}.intersects({:?}) = {} but the sets {}", ia, ib, got, if exp_inter { "share a point" } else { "are disjoint" }),
+            case("intersects"),
+        );
+    }
+    if got != got_rev {
+        s.violation(
+            format!("intersects-asymmetric/{}x{}", a.kind(), b.kind()),
+            format!("{:?}.intersects({:?}) = {} but reversed = {}", ia, ib, got, got_rev),
+            case("intersects"),
+        );
+    }
+    if got_incl != exp_incl {
+        s.violation(
+            format!("includes/{}x{}/got={}", a.kind(), b.kind(), got_incl),
+            format!("{:?}.includes({:?}) = {} but superset relation is {}", ia, ib, got_incl, exp_incl),
+            case("includes"),
+        );
+    }
+    if got_sub != exp_sub {
+        s.violation(
+            format!("is_included_in/{}x{}/got={}", a.kind(), b.kind(), got_sub),
+            format!("{:?}.is_included_in({:?}) = {} but subset relation is {}", ia, ib, got_sub, exp_sub),
+            case("is_included_in"),
+        );
+    }
+}
+
+fn judge_probe<T: PartialOrd + Clone + Debug>(c: &Chain<T>, a: Iv, x: u8, s: &mut Sink) {
+    let ia = c.build(a);
+    let xv = &c.vals[x as usize];
+    let exp = c.bits(a) >> c.pos[x as usize] & 1 == 1;
+    let case = |f: &str| json!({"check":"probe","type":c.name,"n":c.top()+1,"a":a,"x":x,"fn":f});
+    s.evals += 1;
+    let got = ia.contains(xv);
+    let got_rb = <Interval<T> as RangeBounds<T>>::contains(&ia, xv);
+    s.calls += 2;
+    s.outcome(&(a.kind(), got, got_rb, exp));
+    if got != exp {
+        s.violation(
+            format!("contains/{}/got={}", a.kind(), got),
+            format!("{:?}.contains({:?}) = {} but membership is {}", ia, xv, got, exp),
+            case("contains"),
+        );
+    }
+    if got_rb != exp {
+        s.violation(
+            format!("rangebounds-contains/{}/got={}", a.kind(), got_rb),
+            format!("RangeBounds::contains({:?}, {:?}) = {} but membership is {}", ia, xv, got_rb, exp),
+            case("rangebounds"),
+        );
+    }
+    // the bounds themselves: start is Included(low)/Unbounded, end Included(high)/Unbounded
+    let sb_ok = match (a, ia.start_bound()) {
+        (Iv::Two(i, _), Bound::Included(v)) | (Iv::Upper(i), Bound::Included(v)) => *v == c.vals[i as usize],
+        (Iv::Lower(_), Bound::Unbounded) => true,
+        _ => false,
+    };
+    let eb_ok = match (a, ia.end_bound()) {
+        (Iv::Two(_, j), Bound::Included(v)) | (Iv::Lower(j), Bound::Included(v)) => *v == c.vals[j as usize],
+        (Iv::Upper(_), Bound::Unbounded) => true,
+        _ => false,
+    };
+    s.calls += 2;
+    if !sb_ok {
+        s.violation(format!("start_bound/{}", a.kind()), format!("{:?}.start_bound() = {:?}", ia, ia.start_bound()), case("start_bound"));
+    }
+    if !eb_ok {
+        s.violation(format!("end_bound/{}", a.kind()), format!("{:?}.end_bound() = {:?} (closed set needs Included/Unbounded)", ia, ia.end_bound()), case("end_bound"));
+    }
+}
+
+use stats_ci::Interval;
+
+fn run_chain<T: PartialOrd + Clone + Debug + Sync>(c: &Chain<T>, s: &mut Sink) {
+    let ivs = c.intervals();
+    s.count(&format!("intervals[{}/{}]", c.name, c.top() + 1), ivs.len() as u64);
+    for &a in &ivs {
+        for &b in &ivs {
+            judge_pair(c, a, b, s);
+        }
+        for x in 0..c.vals.len() as u8 {
+            judge_probe(c, a, x, s);
+        }
+    }
+}
+
+/// float intervals whose *bounds* are infinite: only membership and the
+/// two-sided/two-sided relations are judged (a two-sided [x, +inf] and the one-sided
+/// [x, →) have the same float members, so superset between them is not claimed).
+fn run_inf_bounds(s: &mut Sink) {
+    let vals = [f64::NEG_INFINITY, -1.0, -0.0, 0.0, 1.0, f64::INFINITY];
+    let pos = [0u8, 1, 2, 2, 3, 4];
+    let mut ivs: Vec<(usize, usize)> = vec![];
+    for i in 0..vals.len() {
+        for j in 0..vals.len() {
+            if pos[i] <= pos[j] {
+                ivs.push((i, j));
+            }
+        }
+    }
+    let bits = |(i, j): (usize, usize)| -> u32 {
+        let mut b = 0;
+        for p in pos[i]..=pos[j] {
+            b |= 1 << p;
+        }
+        b
+    };
+    for &a in &ivs {
+        let ia = Interval::TwoSided(vals[a.0], vals[a.1]);
+        for (x, xv) in vals.iter().enumerate() {
+            let exp = bits(a) >> pos[x] & 1 == 1;
+            s.evals += 1;
+            s.calls += 2;
+            let got = ia.contains(xv);
+            let got_rb = <Interval<f64> as RangeBounds<f64>>::contains(&ia, xv);
+            let case = json!({"check":"infprobe","a":[a.0,a.1],"x":x});
+            if got != exp {
+                s.violation(format!("contains/TwoSided-infinite-bound/got={got}"), format!("{ia:?}.contains({xv:?}) = {got}"), case.clone());
+            }
+            if got_rb != exp {
+                s.violation(format!("rangebounds-contains/TwoSided/got={got_rb}"), format!("RangeBounds::contains({ia:?}, {xv:?}) = {got_rb}"), case);
+            }
+        }
+        for &b in &ivs {
+            let ib = Interval::TwoSided(vals[b.0], vals[b.1]);
+            let (sa, sb) = (bits(a), bits(b));
+            s.evals += 1;
+            s.calls += 3;
+            let case = json!({"check":"infpair","a":[a.0,a.1],"b":[b.0,b.1]});
+            if ia.intersects(&ib) != (sa & sb != 0) {
+                s.violation("intersects/TwoSidedxTwoSided/infinite-bounds", format!("{ia:?}.intersects({ib:?}) = {}", ia.intersects(&ib)), case.clone());
+            }
+            if ia.includes(&ib) != (sa & sb == sb) {
+                s.violation("includes/TwoSidedxTwoSided/infinite-bounds", format!("{ia:?}.includes({ib:?}) = {}", ia.includes(&ib)), case.clone());
+            }
+            if ia.is_included_in(&ib) != (sa & sb == sa) {
+                s.violation("is_included_in/TwoSidedxTwoSided/infinite-bounds", format!("{ia:?}.is_included_in({ib:?}) = {}", ia.is_included_in(&ib)), case);
+            }
+        }
+    }
+}
+
+fn run_all(n: usize, s: &mut Sink) {
+    run_chain(&chain_i32(n), s);
+    run_chain(&chain_u8(n), s);
+    run_chain(&chain_f64(n), s);
+    run_chain(&chain_f32(n), s);
+    run_chain(&chain_char(n), s);
+    run_chain(&chain_str(n), s);
+    run_chain(&chain_string(n), s);
+}
+
+fn replay_case(case: &Value, s: &mut Sink) {
+    let n = case["n"].as_u64().unwrap_or(9) as usize;
+    let ty = case["type"].as_str().unwrap_or("");
+    macro_rules! go {
+        ($c:expr) => {{
+            let c = $c;
+            let a: Iv = serde_json::from_value(case["a"].clone()).unwrap();
+            if case["check"] == "pair" {
+                let b: Iv = serde_json::from_value(case["b"].clone()).unwrap();
+                judge_pair(&c, a, b, s);
+            } else {
+                judge_probe(&c, a, case["x"].as_u64().unwrap() as u8, s);
+            }
+        }};
+    }
+    match (case["check"].as_str().unwrap_or(""), ty) {
+        ("infprobe", _) | ("infpair", _) => run_inf_bounds(s),
+        (_, "i32") => go!(chain_i32(n)),
+        (_, "u8") => go!(chain_u8(n)),
+        (_, "f64") => go!(chain_f64(n)),
+        (_, "f32") => go!(chain_f32(n)),
+        (_, "char") => go!(chain_char(n)),
+        (_, "&str") => go!(chain_str(n)),
+        (_, "String") => go!(chain_string(n)),
+        _ => eprintln!("unknown replay case"),
+    }
+}
+
+fn main() {
+    let (cmd, tier) = mc::parse_args();
+    if let Cmd::Replay(p) = cmd {
+        std::process::exit(mc::report::replay_main(P, &p, replay_case));
+    }
+    let mut rep = Report::new(P, tier);
+    let mut s = Sink::new();
+    run_all(9, &mut s);
+    run_inf_bounds(&mut s);
+    if tier == Tier::Thorough {
+        // redundancy check of the small-scope argument: a longer chain must not change anything
+        run_all(11, &mut s);
+    }
+    s.sample(json!({"type":"i32","a":{"Two":[2,5]},"b":{"Upper":4},"calls":["intersects","intersects(rev)","includes","is_included_in"]}));
+    s.sample(json!({"type":"f64","a":{"Lower":3},"probe":"+0.0 (value index 4)","calls":["contains","RangeBounds::contains","start_bound","end_bound"]}));
+    s.sample(json!({"type":"&str","a":{"Two":[1,1]},"b":{"Two":[1,6]},"note":"degenerate vs shared endpoint"}));
+    rep.rule = "every interval of the three kinds with bounds in the inner positions of a 9-chain (thorough: also 11-chain) x every ordered pair x every probe value (outer positions included), for i32,u8,f64(+-0, subnormal, +-inf probes),f32,char,&str,String; plus float two-sided intervals with infinite bounds; a case is distinct by (kinds, observed results, expected relations)".into();
+    rep.assume("parametricity: predicates inspect T only through comparisons, so a chain realising all order types of <=4 bounds + 1 probe decides all totally ordered T (DESIGN §5)");
+    rep.assume("NaN bounds are outside the property's quantifier and are not enumerated");
+    rep.require(s.distinct() >= 20, "fewer than 20 distinct (kind, outcome) classes: vacuous");
+    std::process::exit(rep.finish(s));
+}
